@@ -25,6 +25,17 @@ let handle (toks : string list) : (string * string * string) option =
   | ["opqs"; a; b; p; c] ->
     let s = "SAMEIMG=1 BACK={" ^ a ^ ";" ^ b ^ ";" ^ string_of_z (abs p) ^ ";" ^ c ^ "}" in
     Some (s, s, "opq:struct")
+  | ["opqarg"; w; v] ->
+    (* what crosses: from the opaque object's bytes (O) / from the tainted value (T); C20_opaque_crosses_as_tainted says these agree *)
+    let v = z_of_string v in
+    let crossing = if w = "O" then opaque_to_sbx abi_lp32 ILong (to_opaque_img (image ILong v)) else to_sbx abi_lp32 ILong v in
+    let s = (match crossing with
+        | Some (Ok x) -> (match to_app abi_lp32 ILong x with
+            | Some (Ok r) -> "SAW=" ^ string_of_z x ^ " R=" ^ string_of_z r
+            | _ -> "ABORT")
+        | _ -> "ABORT") in
+    let spec = if Z.leb (z_of_string "-2147483648") v && Z.leb v (z_of_string "2147483647") then "SAW=" ^ string_of_z v ^ " R=" ^ string_of_z v else "ABORT" in
+    Some (s, spec, "opq:arg:" ^ w ^ (if s = "ABORT" then ":abort" else ""))
   | ["opqcb"; v] ->
     (* guest long (int32) -> application long -> back *)
     let v = z_of_string v in
